@@ -556,6 +556,6 @@ func main() {
 			"(a) a deterministic structure-aware mutator (bit flips, byte/run overwrite, truncation, slice duplication/deletion, token injection, rewriting of decimal digit runs into numbers on the edges of the integer types, frame length-field rewrites to 126/65536/2^31..2^64-1) over valid seeds of each kind (frame streams, requests, responses, option lists, deflate streams, close payloads) under random chunk plans, 16 inputs per case; (b) short random byte strings; (c) headers announcing 2^31-1..2^63-1 bytes at every frame entry point in 4 stream shapes, each in its own process; (d) allocation metering of ReadHeader / Reader.NextFrame (<= 4 KiB per call for any announced length) and MaxFrameSize refusal without reading payload. thorough additionally runs Go's coverage-guided fuzzer on every target (see coverage.fuzz). distinct = (target, seed bucket) classes.",
 		Assumptions: []string{"entry points documented to allocate the announced length (ReadFrame, ReadMessage, DecompressFrame on ReadFrame output) receive lengths above 64 MiB only in the isolated extreme-length processes", "ControlHandler is given checked headers only, as its documentation requires", "a hang is decided by read counters on the transport; the supervisor's wall-clock watchdog only triggers isolation"},
 		HangSeconds: 40,
-		Subs:        []mon.Sub{subMutate(), subRandomBytes(), subExtreme(), subAllocAndLimit(), subExtremeInner()},
+		Subs:        []mon.Sub{subMutate(), subRandomBytes(), subExtreme(), subAllocAndLimit(), subExtremeInner(), subDepth()},
 	})
 }
